@@ -1,6 +1,7 @@
 package sim
 
 import (
+	"errors"
 	"encoding/json"
 	"fmt"
 	"strconv"
@@ -65,8 +66,16 @@ func c07Gen(seed uint64, tier string) any {
 		if r.Chance(1, 4) {
 			sc.Src = Pick(r, []string{strings.Repeat("(", 30) + "1" + strings.Repeat(")", 30), strings.Repeat("[", 30) + "1" + strings.Repeat("]", 30), "1" + strings.Repeat("+1", 300), strings.Repeat("a.b.", 40) + "c", strings.Repeat("-", 200) + "1"})
 		}
-		sc.Lazy = Pick(r, []string{"", "", "func", "computed"})
-		if sc.Lazy != "" && r.Chance(1, 3) {
+		sc.Lazy = Pick(r, []string{"", "", "func", "computed", "stream"})
+		if sc.Lazy == "stream" {
+			// one expression, so that ReadExpr takes the whole text (what follows an expression would be
+			// parsed by the outer parser under its own count)
+			sc.Src = Pick(r, []string{"1" + strings.Repeat("+1", r.Range(5, 400)), strings.Repeat("(", r.Range(3, 25)) + "7" + strings.Repeat(")", 25)[:0] + "", "[1" + strings.Repeat(",1", r.Range(5, 200)) + "].len()", "2*(3+4*(5+6*(7+8*(9+" + strings.Repeat("1+", r.Range(1, 100)) + "1))))"})
+			if strings.HasPrefix(sc.Src, "(") {
+				n := strings.Count(sc.Src, "(")
+				sc.Src += strings.Repeat(")", n)
+			}
+		} else if sc.Lazy != "" && r.Chance(1, 3) {
 			sc.Src = Pick(r, []string{"a = 1; " + strings.Repeat("a = a + 1; ", r.Range(5, 60)) + "a", "1" + strings.Repeat("+1", r.Range(5, 200)), "x = [1,2,3]; y = {'k': x}; y.k[1] + " + strings.Repeat("(", 12) + "d6" + strings.Repeat(")", 12)})
 		}
 	default:
@@ -296,10 +305,45 @@ func c07LazyUse(sc *C07Scenario, parseLimit uint64, m *Meter) (first, second *Ou
 	} else {
 		doc, _ = json.Marshal(map[string]any{"t": int(ds.VMTypeComputedValue), "v": map[string]any{"expr": sc.Src}})
 	}
-	snap := append(append([]byte(`{"lz":`), doc...), '}')
-	if err := json.Unmarshal(snap, vm.Attrs); err != nil {
-		o := &Outcome{Kind: "run", Err: "decode: " + err.Error()}
-		return o, o
+	if sc.Lazy == "stream" {
+		// the text reaches the compiler through an embedding program's stream syntax: 'EX' followed by
+		// an expression read with ReadExpr, evaluated by the handler with ComputedExecute (the usage the
+		// library's own tests show)
+		use = "EX" + sc.Src
+		_ = vm.RegCustomDiceParser(func(ctx *ds.Context, st *ds.CustomDiceStream) (*ds.CustomDiceParseResult, error) {
+			a, ok1 := st.Read()
+			b, ok2 := st.Read()
+			if !ok1 || !ok2 || a != 'E' || b != 'X' {
+				st.ResetAttempt()
+				return &ds.CustomDiceParseResult{Matched: false}, nil
+			}
+			expr, matched, err := st.ReadExpr("")
+			if err != nil {
+				return nil, err
+			}
+			if !matched {
+				st.ResetAttempt()
+				return &ds.CustomDiceParseResult{Matched: false}, nil
+			}
+			st.Commit()
+			return &ds.CustomDiceParseResult{Groups: []string{st.Current()}, Payload: expr, Matched: true}, nil
+		}, func(ctx *ds.Context, groups []string, raw any) (*ds.VMValue, string, error) {
+			v, _ := raw.(*ds.VMValue)
+			if v == nil {
+				return nil, "", errors.New("host: no payload")
+			}
+			ret := v.ComputedExecute(ctx, &ds.BufferSpan{})
+			if ctx.Error != nil {
+				return nil, "", ctx.Error
+			}
+			return ret, "", nil
+		})
+	} else {
+		snap := append(append([]byte(`{"lz":`), doc...), '}')
+		if err := json.Unmarshal(snap, vm.Attrs); err != nil {
+			o := &Outcome{Kind: "run", Err: "decode: " + err.Error()}
+			return o, o
+		}
 	}
 	m.Reset()
 	m.Budget = 300_000
@@ -564,6 +608,18 @@ func c07ParseLazy(sc *C07Scenario, m *Meter, res *RunResult, dg *Digest) {
 			break
 		}
 		refused := o1.Err != "" && o1.Err != b1.Err
+		if !refused && o1.Err == "" {
+			// the same text given to Parse directly under the same budget: what Parse refuses for its
+			// size, no other route may compile and run
+			cfg := sc.Cfg
+			cfg.OpLimit, cfg.ParseLimit = 0, k
+			direct := DoCmd(cfg.NewVM(), Cmd{Kind: "parse", Src: sc.Src})
+			res.Evals++
+			if strings.Contains(direct.Err, "max number of expressions parsed") {
+				res.Violate("parse-budget-not-enforced@"+sc.Lazy, "ParseExprLimit=%d: Parse refuses the text for its size, but reached through a %s it was compiled and evaluated (%s)\n  text=%q", k, sc.Lazy, o1.Short(), trunc(sc.Src, 200))
+				break
+			}
+		}
 		if refused {
 			res.Probe("parse_abort_landed")
 			res.Fault("retry_after_refusal")
